@@ -32,6 +32,18 @@ FRESH_CALLS = ("dict", "copy", "deepcopy")
 # role resolution of private names (a rename must not look like a violation)
 # ---------------------------------------------------------------------------
 
+def bind_call(call, func):
+    """parameter name -> argument expression of a direct call of `func`."""
+    out = {}
+    for i, x in enumerate(call.args):
+        if i < len(func.params):
+            out[func.params[i]] = x
+    for k in call.keywords:
+        if k.arg:
+            out[k.arg] = k.value
+    return out
+
+
 def pickler_globals(e):
     """(name global, class global): what get_loky_pickler_name() / get_loky_pickler() return."""
     out = []
@@ -431,9 +443,12 @@ def r_pickler_select(e, R):
     redp = ini.params[2] if len(ini.params) > 2 else None
     if redp is None:
         raise AnalysisError("pickler class: reducers parameter not found")
+    def _reg_in_order(n):
+        tn = [t.id for t in n.target.elts] if isinstance(n.target, ast.Tuple) and all(isinstance(t, ast.Name) for t in n.target.elts) else []
+        return any(isinstance(c, ast.Call) and reg is not None and reg.qualname in e.callees_of(c) and len(c.args) == 2 and len(tn) == 2
+                   and [getattr(x, "id", None) for x in c.args] == tn for c in ast.walk(n))
     loops = [n for n in func_nodes(ini) if isinstance(n, ast.For) and isinstance(n.iter, ast.Call) and isinstance(n.iter.func, ast.Attribute) and n.iter.func.attr == "items"
-             and isinstance(n.iter.func.value, ast.Name) and n.iter.func.value.id == redp
-             and any(isinstance(c, ast.Call) and reg is not None and reg.qualname in e.callees_of(c) for c in ast.walk(n))]
+             and isinstance(n.iter.func.value, ast.Name) and n.iter.func.value.id == redp and _reg_in_order(n)]
     reach = ig.find_path(ig.entry, regc, use_exc=False, edge_ok=SC.Facts([(SC.name(redp), "some")]).edge_ok())
     R.check(bool(loops) and reach is not None, "R-PICKLER-SELECT", f"{ini.short}: registers every reducer of the queue on this pickler", ini.short,
             f"for type, reduce_func in {redp}.items(): self.register(type, reduce_func)", "job_reducers / result_reducers are silently ignored", e.loc(ini, ini.node))
@@ -551,6 +566,16 @@ def r_wrap_dispatch(e, R):
     R.check(any(isinstance(n, ast.Call) and disp.qualname in e.callees_of(n) for n in func_nodes(rec)), "R-WRAP-DISPATCH",
             "a wrapper rebuilt after a pickle round trip goes through the same dispatch", rec.short, "_wrap_non_picklable_objects(obj, keep_wrapper)",
             "after a round trip the wrapper's callability is decided differently", e.loc(rec, rec.node))
+    # ... with (the object just loaded, the flag it was shipped with), in the dispatch's parameter order
+    for n in func_nodes(rec):
+        if isinstance(n, ast.Call) and disp.qualname in e.callees_of(n):
+            loaded = {d_.targets[0].id for d_ in func_nodes(rec) if isinstance(d_, ast.Assign) and isinstance(d_.targets[0], ast.Name) and isinstance(d_.value, ast.Call)
+                      and any(v == ("ext", "cloudpickle.loads") for v in e.pt.ev(rec, d_.value.func))}
+            b = bind_call(n, disp)
+            okb = isinstance(b.get(disp.params[0]), ast.Name) and b[disp.params[0]].id in loaded and isinstance(b.get(disp.params[1]), ast.Name) \
+                and b[disp.params[1]].id == rec.params[1]
+            R.check(okb, "R-WRAP-DISPATCH", "the rebuilt wrapper wraps the object just loaded, with the flag it was shipped with", rec.short, norm(n),
+                    "after a round trip the wrapper wraps something else than the un-pickled object (arguments swapped / wrong variable)", e.loc(rec, n))
     # (c) the class-wrapping path: the wrapper class derives from the callable wrapper iff the wrapped class defines __call__
     pub = e.prog.func(f"{CW}:wrap_non_picklable_objects")
     nested = [c for c in subs if c.parent_func is pub]
